@@ -468,7 +468,11 @@ pub fn run(a: &Args, out: &mut impl Write) {
             for _ in 0..3 {
                 targets.push(lay.funcs[r.below((nf - 3) as u64) as usize]);
             }
-            targets.dedup();
+            {
+                // distinct addresses only (a random pick may repeat a fixed one)
+                let mut seen = std::collections::HashSet::new();
+                targets.retain(|t| seen.insert(t.0));
+            }
             let fakes: Vec<(usize, u32)> = vec![near.funcs[0], near.funcs[7], far.funcs[1], far.funcs[200], near.funcs[255]];
             let ops = gen_history(&mut r, targets.len(), fakes.len(), thorough);
             let n = targets.len();
